@@ -1714,3 +1714,25 @@ Proof. repeat split. Qed.
 Print Assumptions shortest_digits_ok_valid.
 Print Assumptions parse_format_json.
 Print Assumptions parse_format_g.
+
+(* (d) at the level of strings: a literal  [-]int[.frac][e(+|-)digits]  with a non-zero
+   mantissa is parsed to the correctly rounded value of its exact decimal meaning *)
+Theorem parse_float_correct neg ip hasdot fp ex :
+  all_digits ip = true -> all_digits fp = true ->
+  (ip <> EmptyString \/ fp <> EmptyString) -> (hasdot = false -> fp = EmptyString) ->
+  exp_ok ex -> 0 < dval (ip ++ fp) 0 ->
+  pf_correct neg
+    (dec_real neg (dval (ip ++ fp) 0) (exp_val ex - Z.of_nat (slen fp)))
+    (parse_float (sign_str neg ++ ip ++ (if hasdot then "." ++ fp else "") ++ exp_str ex)).
+Proof.
+  intros Hip Hfp Hne Hdot Hex HM.
+  rewrite parse_float_shape by assumption. now apply dec_to_f64_correct.
+Qed.
+
+Example parse_float_correct_ex :
+  parse_float (sign_str true ++ "12" ++ ("." ++ "5") ++ exp_str (Some (true, "03"%string)))
+  = parse_float "-12.5e-03" /\
+  dval ("12" ++ "5") 0 = 125 /\ exp_val (Some (true, "03"%string)) - Z.of_nat (slen "5") = -4.
+Proof. repeat split. Qed.
+
+Print Assumptions parse_float_correct.
